@@ -476,12 +476,39 @@ func (h *Hub) End() error {
 	if !h.inBlock {
 		panic("End outside a block")
 	}
+	// the staking step: queued changes take effect, and x/staking tells the module through its hooks
+	type st struct{ bonded, removed bool }
+	was := make([]st, len(h.Staking.Vals))
+	for i, v := range h.Staking.Vals {
+		was[i] = st{v.Bonded && !v.Removed, v.Removed}
+	}
 	for _, f := range h.pending {
 		f(h.Staking)
 	}
 	h.pending = nil
 	em := sdk.NewEventManager()
-	err := h.guarded("EndBlocker(mhub2)", func() { mhub2.EndBlocker(h.ctx.WithEventManager(em), h.K) })
+	err := h.guarded("EndBlocker(staking hooks)", func() {
+		hooks := h.K.Hooks()
+		ctx := h.ctx.WithEventManager(em)
+		for i, v := range h.Staking.Vals {
+			if i >= len(was) {
+				break
+			}
+			now := v.Bonded && !v.Removed
+			switch {
+			case was[i].bonded && !now:
+				hooks.AfterValidatorBeginUnbonding(ctx, sdk.ConsAddress(ValAddr(i)), ValAddr(i))
+			case !was[i].bonded && now:
+				hooks.AfterValidatorBonded(ctx, sdk.ConsAddress(ValAddr(i)), ValAddr(i))
+			}
+			if v.Removed && !was[i].removed {
+				hooks.AfterValidatorRemoved(ctx, sdk.ConsAddress(ValAddr(i)), ValAddr(i))
+			}
+		}
+	})
+	if err == nil {
+		err = h.guarded("EndBlocker(mhub2)", func() { mhub2.EndBlocker(h.ctx.WithEventManager(em), h.K) })
+	}
 	if err == nil {
 		err = h.guarded("EndBlocker(oracle)", func() { oracle.EndBlocker(h.ctx.WithEventManager(em), h.O) })
 	}
